@@ -162,6 +162,19 @@ structure Store where
 
 def Store.init (b : Backend) : Store := { backend := b }
 
+/-- `MemoryWorkflowStore(max_completed=v)`: `none` = the constructor raises `ValueError`.  (Without
+the guard a negative bound would make `len(queue) > max_completed` always true: every completion is
+evicted at once, as with `0`.) -/
+def Store.initMem? (maxCompleted : Option Int) : Option Store :=
+  match maxCompleted with
+  | none => some (Store.init (.mem none))
+  | some v =>
+    if v < 0 then (if memNegativeMaxRaises then none else some (Store.init (.mem (some 0))))
+    else some (Store.init (.mem (some v.toNat)))
+
+/-- `MemoryWorkflowStore()` -/
+def Store.initMemDefault? : Option Store := Store.initMem? memMaxCompletedDefault
+
 def hasId (rows : List Handler) (id : Nat) : Bool := rows.any (·.handlerId == id)
 
 /-- `handlers[id] = h` / `INSERT … ON CONFLICT(handler_id) DO UPDATE` -/
